@@ -22,6 +22,17 @@ The traversal FOLLOWS THE CODE:
   operation type, then input and output                         → edge kind `meth`.
 Python recursion is unbounded; the model takes a fuel and `Props.C16.allowlist_complete` shows
 that `Api.fuel` suffices on well-formed inputs.
+
+Also modelled: the top-level views `Proto.messages`/`Proto.enums` and the set of classes the `types`
+templates define from a pruned proto (`Proto.emitted`) — the place where the open finding
+`nested-kept-parent-pruned` becomes visible.
+
+NOT modelled (reached through T3 only): everything else the templates do with the pruned schema
+(imports between `types` modules, `__init__.py` export lists, clients/transports/`gapic_metadata`,
+resource path helpers of `Service.resource_messages`), `to_snake_case` of the client method names
+(C03's model), the `_unary` twin of extended-operation methods, mixin methods (C17), sample/snippet
+generation for internal methods, `API.subpackages` views, and `Address` equality itself (the harness
+numbers addresses with the real `__eq__/__hash__`).
 -/
 namespace GapicModel.Model.Selective
 
@@ -215,6 +226,33 @@ def pruneProto (al : List Addr) (p : Proto) : Option Proto :=
   if services.isEmpty && messages.isEmpty && enums.isEmpty then none
   else some { p with services := services, messages := messages, enums := enums }
 
+/-! ### What the emitted `types` modules define (`Proto.messages`, `Proto.enums`, `_message.py.j2`) -/
+
+/-- `address.parent` is non-empty: the wrapper is declared inside a message -/
+def Api.isNested (api : Api) (a : Addr) : Bool :=
+  api.msgs.any fun m => m.nestedMsgs.contains a || m.nestedEnums.contains a
+
+/-- `Proto.messages`: `all_messages` entries with `not v.meta.address.parent` -/
+def Proto.topMessages (api : Api) (p : Proto) : List Addr := p.messages.filter fun a => !api.isNested a
+
+/-- `Proto.enums`: `all_enums` entries with `not v.meta.address.parent` -/
+def Proto.topEnums (api : Api) (p : Proto) : List Addr := p.enums.filter fun a => !api.isNested a
+
+/-- a message class and every class declared inside it: `_message.py.j2` recurses over
+`message.nested_enums` and `message.nested_messages` of the WRAPPER (pruning filters `all_messages`
+only, never these dicts) -/
+def declared (api : Api) : Nat → Addr → List Addr
+  | 0, a => [a]
+  | f + 1, a =>
+    match api.findMsg a with
+    | some m => a :: (m.nestedEnums ++ m.nestedMsgs.flatMap (declared api f))
+    | none => [a]
+
+/-- the proto-plus classes `types/<file>.py` defines for a (pruned) proto: the templates iterate
+`proto.messages` and `proto.enums` — top-level declarations only -/
+def Proto.emitted (api : Api) (p : Proto) : List Addr :=
+  (p.topMessages api).flatMap (declared api api.msgs.length) ++ p.topEnums api
+
 /-! ### Internal marking -/
 
 /-- `Method.with_internal_methods` -/
@@ -368,5 +406,33 @@ def Api.wfAddrs (api : Api) (listed : List (List Char)) : Bool :=
   (api.methodAddrs.all fun a => !api.msgAddrs.contains a) &&
   (api.nodes.all fun b => (api.succ b).all fun e => e.isMeth || !api.methodAddrs.contains e.target) &&
   ((api.roots listed).all fun e => e.isMeth || !api.methodAddrs.contains e.target)
+
+def Api.services (api : Api) : List Service := api.protos.flatMap (·.services)
+def Api.serviceAddrs (api : Api) : List Addr := api.services.map (·.addr)
+
+/-- the edge from method wrapper `b` to address `t` is the `address_allowlist.add(operation_service.meta.address)`
+of an extended operation whose operation service and polling method both resolve -/
+def extLeafOK (api : Api) (b t : Addr) : Bool :=
+  match api.findMsg b with
+  | some _ => false
+  | none =>
+    match api.findMethod b with
+    | some (p, m) =>
+      match m.ext with
+      | some x =>
+        match p.services.find? (fun s => s.name == x.opService) with
+        | some s => s.addr == t && (s.methods.find? (·.polling)).isSome
+        | none => false
+      | none => false
+    | none => false
+
+/-- service addresses identify services, differ from method addresses, are only pointed at by the
+extended-operation edge, and a method address belongs to one service only -/
+def Api.wfServices (api : Api) : Bool :=
+  (api.services.all fun s => api.services.all fun s' => s.addr != s'.addr || decide (s = s')) &&
+  (api.serviceAddrs.all fun a => !api.methodAddrs.contains a) &&
+  (api.nodes.all fun b => (api.succ b).all fun e => !api.serviceAddrs.contains e.target || extLeafOK api b e.target) &&
+  (api.services.all fun s => s.methods.all fun m => api.services.all fun s' => s'.methods.all fun m' =>
+      m'.addr != m.addr || s'.addr == s.addr)
 
 end GapicModel.Model.Selective
